@@ -277,3 +277,45 @@ func LineAtoms(full bool) []string {
 	}
 	return out
 }
+
+// Constructs returns complete block-level constructs (1-3 lines each, no
+// trailing newline) for the bounded-exhaustive construct-adjacency tier:
+// documents are sequences of constructs joined by a line end or a blank line.
+func Constructs(full bool) []string {
+	small := []string{"a", "# h", "h\n===", "---", "- a", "-", "1. a", "> q", "    code", "```\nc\n```", "```", "<div>", "<!--", "[x]: /u", "[x]", "|a|b|\n|-|-|", "a\n: b", ": c", "[^1]: n", "x[^1]", "*e* `c`", "\ta", "a  ", "{#id}"}
+	if !full {
+		return small
+	}
+	return append(small, "a\nb", "h\n---", "***", "- a\n- b", "1)", ">", "\tcode", "~~~\nc", "<div>\nx\n</div>", "<!-- c -->", "[x]: /u 't'", "[x]:", "|a|\n|-|\n|c|", ":", "[^1]", "- [ ] t", "~~s~~", "www.a.bc", "![i](u)", "<b>", "&amp;", "\\", "  a", "# h {#i}", "a {.c}\n===", "\"q\"", "--", "日本\n語", "\x00", "\x80", "=", "+", "1.", "    ", ">>", "[x]: <u v>\n'title' ok", "* * *", "a\\", "[a](u)", "<a@b.c>", "x\n: y\n: z", "- a\n\n  b")
+}
+
+// EnumConstructDocs calls f for every pair (always) and triple (per tier) of
+// constructs with every combination of separators; idx counts documents so
+// that callers can partition by shard.
+func EnumConstructDocs(thorough bool, f func(idx int, doc []byte)) int {
+	seps := []string{"\n", "\n\n"}
+	full := Constructs(true)
+	idx := 0
+	for _, a := range full {
+		for _, b := range full {
+			for _, s := range seps {
+				idx++
+				f(idx, []byte(a+s+b+"\n"))
+			}
+		}
+	}
+	pool := Constructs(thorough)
+	for _, a := range pool {
+		for _, b := range pool {
+			for _, c := range pool {
+				for _, s1 := range seps {
+					for _, s2 := range seps {
+						idx++
+						f(idx, []byte(a+s1+b+s2+c))
+					}
+				}
+			}
+		}
+	}
+	return idx
+}
